@@ -33,7 +33,7 @@ try:
                 checks[p] = {"exit": rcc, "tail": lines[-4:]}
             meta["recheck"] = "applied with %s to /repo %s" % (how, subprocess.run(["git", "-C", REPO, "rev-parse", "--short", "HEAD"], stdout=subprocess.PIPE, text=True).stdout.strip())
 finally:
-    sh(["git", "-C", REPO, "checkout", "--", "."]); sh(["git", "-C", REPO, "clean", "-fdq"]); sh(["git", "-C", REPO, "reset", "-q"])
+    sh(["git", "-C", REPO, "reset", "-q", "--hard"]); sh(["git", "-C", REPO, "clean", "-fdq"])
     shutil.rmtree(os.path.join(VERIF, "evidence")); shutil.move(evbak, os.path.join(VERIF, "evidence"))
 if checks:
     meta["checks_first_pass"] = meta.get("checks_first_pass") or meta.get("checks_quick")
